@@ -114,7 +114,8 @@ def run_suites(pid, suites, tier, seed, vh, known, evidence):
         ops = list(suite.corpus()) + list(suite.gen(rng, tier))
         impl = suite.run_impl(vh, suite.prepare_impl(ops))
         model = suite.run_model(suite.prepare_model(ops, impl))
-        nv = nd = 0
+        nv = nd = nskip = 0
+        skip_why = ""
         for op, i, m in zip(ops, impl, model):
             total += 1
             try:
@@ -125,6 +126,9 @@ def run_suites(pid, suites, tier, seed, vh, known, evidence):
                 distinct.add(suite.name + ":" + suite.key(op))
             for f in suite.features(op, i, m):
                 hist[suite.name + "." + f] += 1
+            if v.spec_ok is None and v.agree and (v.note or "").startswith("skipped"):
+                nskip += 1
+                skip_why = skip_why or v.note[:300]
             if v.spec_ok is False:
                 violations.append((suite, op, i, m, v.note))
                 nv += 1
@@ -134,9 +138,14 @@ def run_suites(pid, suites, tier, seed, vh, known, evidence):
         if ops:
             k = rng.randrange(len(ops))
             samples.append({"suite": suite.name, "op": _trunc(ops[k]), "impl": _trunc(impl[k]), "model": _trunc(model[k])})
-        per_suite[suite.name] = {"cases": len(ops), "spec_violations": nv, "disagreements": nd,
+        per_suite[suite.name] = {"cases": len(ops), "spec_violations": nv, "disagreements": nd, "skipped": nskip,
                                  "wall_s": round(time.time() - t0, 2)}
-        log("[suite] %s: %d cases, %d spec violations, %d disagreements, %.1fs" % (suite.name, len(ops), nv, nd, time.time() - t0))
+        log("[suite] %s: %d cases, %d spec violations, %d disagreements%s, %.1fs" % (
+            suite.name, len(ops), nv, nd, ", %d skipped" % nskip if nskip else "", time.time() - t0))
+        # vacuity guard: a run in which the cases are not executed decides nothing. (Unchanged tree: < 3% skipped in every suite.)
+        if len(ops) >= 20 and nskip > max(5, getattr(suite, "max_skip", 0.15) * len(ops)):
+            disagreements.append((suite, ops[0], impl[0], model[0],
+                                  "correspondence not executed: %d of %d cases of suite %s were skipped (first reason: %s)" % (nskip, len(ops), suite.name, skip_why)))
     cov["evaluations"] = total
     cov["distinct_nontrivial"] = len(distinct)
     cov["samples"] = samples[:6]
